@@ -168,7 +168,7 @@ fn mode_histories(seed: u64, thorough: bool) {
     let ladders = if thorough { 700 } else { 126 };
     for l in 0..ladders {
         let n = 2 + (l % 7) as usize;
-        let kind = g.below(6);
+        let kind = g.below(8); // incl. opposite-sign twin edges + RVB (6) and h = 0 / h > 0 mixes (7); no small units: the real drivers go through `timestep`
         let specs = ising_ladder(&mut g, n, kind, true);
         let log = new_log();
         let mut tc = match build_ising(&mut g, &specs, &log) {
@@ -191,6 +191,9 @@ fn mode_histories(seed: u64, thorough: bool) {
         if equilibrate(&mut tc, &mut g).is_err() {
             stat("hist.equilibration_panicked", 1);
             continue;
+        }
+        if g.chance(1, 4) {
+            grow_managers_by_hand(&mut tc, &mut g);
         }
         let t_total = 4 + g.below(if thorough { 24 } else { 12 }) as usize;
         let sf = 1 + g.below(5) as usize;
